@@ -48,8 +48,9 @@ def run(report, tier, seed):
             a.edit = b.edit = edit
             labs += [a, b]
         for j, (pa, pb, edit) in enumerate(directed_pairs()):
-            a = codeclab.Lab(sc, ybin, 900 + 2 * j, modelgen.Gen(seed * 13 + j), pkg=pa)
-            b = codeclab.Lab(sc, ybin, 901 + 2 * j, modelgen.Gen(seed * 13 + j + 77), pkg=pb)
+            # the first directed pair also carries the NDJSON header leg (generated NDJSON readers of both languages)
+            a = codeclab.Lab(sc, ybin, 900 + 2 * j, modelgen.Gen(seed * 13 + j, json_safe=True), pkg=pa, ndjson=(j in (0, 2)))
+            b = codeclab.Lab(sc, ybin, 901 + 2 * j, modelgen.Gen(seed * 13 + j + 77, json_safe=True), pkg=pb, ndjson=(j in (0, 2)))
             a.edit = b.edit = edit
             labs += [a, b]
         import concurrent.futures
@@ -67,6 +68,9 @@ def run(report, tier, seed):
             if b.ok:
                 _cross_model(report, a, b, lean, rng, seed)
                 _cross_model(report, b, a, lean, rng, seed)
+                if a.ndjson:
+                    _ndjson_leg(report, a, lean, rng, seed, [("neighbour." + n, b.schemas[n]) for n in b.protos])
+                    _ndjson_leg(report, b, lean, rng, seed, [("neighbour." + n, a.schemas[n]) for n in a.protos])
             else:
                 report.count("neighbour_rejected_by_yardl")
         lean.close()
@@ -218,6 +222,80 @@ def _corrupt(report, lab, lean, rng, quick, seed):
             else:
                 b = b[:pos]
             _feed(report, lab, lean, pname, bytes(b), f"corrupt:{kind}@{pos}", seed)
+
+
+# ------------------------------------------------------------------------------ NDJSON headers
+
+# header["yardl"]["version"] forms other than the number one: every one of them is an unknown format version
+NDJSON_BAD_VERSIONS = ["0", "2", "-1", "1.5", "1.25e0", "0.9999999999999999", "\"1\"", "null", "[1]", "{\"v\":1}", "4294967297", "18446744069414584321", "1e40", "false"]
+
+
+def _ndjson_leg(report, lab, lean, rng, seed, others):
+    """corrupted / foreign NDJSON headers against the generated C++ and Python NDJSON readers. The rule (docs/reference/ndjson.md,
+    header.h, _ndjson.py): the first line is a JSON object {"yardl": {"version": 1, "schema": <own schema>}}."""
+    import jsonlab
+    for pname, pj in lab.protos.items():
+        own = json.loads(lab.schemas[pname])
+        vals = lab.gen.gen_step_vals(pj, stream_len=1, size=2)
+        tj = lean.ask({"op": "toj_proto", "proto": pj, "vals": vals})
+        body = jsonlab.ndjson_text(lab.schemas[pname], [(ln[0], ln[1]) for ln in tj["lines"]]).split("\n", 1)[1]
+        dumps = lambda o: json.dumps(o, separators=(",", ":"), ensure_ascii=False)
+        good = dumps({"yardl": {"version": 1, "schema": own}})
+        cases = [("valid", good, False)]
+        for v in NDJSON_BAD_VERSIONS:
+            cases.append((f"version:{v}", good.replace('"version":1,', f'"version":{v},', 1), True))
+        cases.append(("version:missing", dumps({"yardl": {"schema": own}}), True))
+        cases.append(("schema:missing", dumps({"yardl": {"version": 1}}), True))
+        cases.append(("schema:null", dumps({"yardl": {"version": 1, "schema": None}}), True))
+        cases.append(("schema:as-string", dumps({"yardl": {"version": 1, "schema": lab.schemas[pname]}}), True))
+        cases.append(("yardl:missing", dumps({"version": 1, "schema": own}), True))
+        cases.append(("yardl:renamed", dumps({"Yardl": {"version": 1, "schema": own}}), True))
+        cases.append(("header:array", dumps([{"yardl": {"version": 1, "schema": own}}]), True))
+        cases.append(("header:truncated", good[:len(good) // 2], True))
+        cases.append(("header:empty-line", "", True))
+        cases.append(("header:not-json", "yardl " + good, True))
+        for oname, oschema in others:
+            if json.loads(oschema) != own:
+                cases.append((f"schema:foreign:{oname}", dumps({"yardl": {"version": 1, "schema": json.loads(oschema)}}), True))
+        # one value inside the schema changed (a near-identical schema)
+        txt = dumps(own)
+        for old, new in (('"int32"', '"int64"'), ('"float32"', '"float64"'), ('"string"', '"int8"'), ('"name":"', '"name":"x')):
+            if old in txt:
+                cases.append((f"schema:one-token:{old}", dumps({"yardl": {"version": 1, "schema": json.loads(txt.replace(old, new, 1))}}), True))
+        nstreams = sum(1 for s in pj if s["stream"])
+        pyjobs, pend = [], []
+        for what, header, refuse in cases:
+            inp = lab.tmp(".hdr.ndjson")
+            open(inp, "w", encoding="utf-8").write(header + "\n" + body)
+            outc, outp = lab.tmp(".cpp.out"), lab.tmp(".py.out")
+            rc, err = lab.run_cpp(pname, "j", "b", inp, outc, [2] * nstreams, timeout=30)
+            _judge_ndjson(report, lab, pname, "cpp", what, header, refuse, rc, err, outc, seed)
+            pyjobs.append({"proto": pname, "infmt": "j", "outfmt": "b", "in": inp, "out": outp})
+            pend.append((what, header, refuse, outp))
+        for (what, header, refuse, outp), res in zip(pend, lab.run_py(pyjobs)):
+            _judge_ndjson(report, lab, pname, "py", what, header, refuse, res["rc"], res["exc"], outp, seed)
+
+
+def _judge_ndjson(report, lab, pname, lang, what, header, refuse, rc, err, out, seed):
+    report.case(distinct_key=("ndjson", header[:3000], pname, lab.idx, lang))
+    report.count(f"ndjson-header.{what.split(':')[0]}.{lang}")
+    replay = {"what": "ndjson-header:" + what, "reader_protocol": pname, "lang": lang, "model_index": lab.idx, "seed": seed,
+              "header_line": header[:3000], "files": _files(lab), "rc": rc, "stderr": err}
+    size = os.path.getsize(out) if os.path.exists(out) else 0
+    if not refuse:
+        if rc != 0:
+            report.violation(f"{lang}:ndjson-own-stream-refused", replay, "the reader refused a stream with its own header")
+        return
+    if rc == -9:
+        report.violation(f"{lang}:hang", replay, "")
+    elif rc == 0:
+        report.violation(f"{lang}:foreign-ndjson-stream-accepted:{what.split(':')[0]}:{what.split(':')[1] if what.startswith('version') else ''}", replay,
+                         "the NDJSON reader completed normally on a stream whose header it must refuse")
+    elif rc != 3:
+        report.violation(f"{lang}:crash:{rc}", replay, "")
+    elif size != 0:
+        report.violation(f"{lang}:value-delivered-before-refusal:ndjson-{what.split(':')[0]}", dict(replay, output_bytes=size),
+                         "the NDJSON reader got past the header check of a stream it must refuse")
 
 
 def _varlen(n):
